@@ -117,6 +117,11 @@ impl<'a, 'b> HeaderWriter<'a, 'b> {
 
         let mut count = I::zero();
         for (v, i) in iter {
+            // the count field has the same width as the index: refuse what it cannot represent
+            let max_count = if I::SIZE == 1 { u8::MAX as u16 } else { u16::MAX };
+            if count.widen_to_u16() == max_count {
+                return Err(scursor::WriteError::NumericOverflow);
+            }
             i.write(self.cursor)?;
             v.write(self.cursor)?;
             count.increment();
